@@ -270,6 +270,9 @@ func panicLabel(msg string) string {
 		at = msg[i+4:]
 		msg = msg[:i]
 	}
+	if i := strings.Index(msg, " ["); i >= 0 {
+		msg = msg[:i] // drop concrete bounds/values from the label
+	}
 	if len(msg) > 60 {
 		msg = msg[:60]
 	}
